@@ -698,7 +698,14 @@ abCheckForeignExport(AbSyn absyn)
 {
 	AbSyn	what	= absyn->abForeignExport.what;
 	AbSyn	dest	= absyn->abForeignExport.dest;
-	ForeignOrigin forg = forgFrAbSyn(dest->abApply.argv[0]);
+	ForeignOrigin forg;
+
+	/* The destination must have the form Foreign(X). */
+	if (!abHasTag(dest, AB_Apply) || abApplyArgc(dest) < 1) {
+		comsgError(dest, ALDOR_E_ChkBadForm, "export");
+		return;
+	}
+	forg = forgFrAbSyn(dest->abApply.argv[0]);
 
 	if (forg->protocol == FOAM_Proto_Java
 	    && forg->file == NULL) {
